@@ -51,26 +51,27 @@ func RunMulti(c HistCase) pbt.Outcome {
 }
 
 // weights: splices dominate; every special op (GC, kept results, aliasing, aborted calls) occurs regularly
-var multiKinds = []int{0, 0, 0, 1, 1, 1, 2, 2, 2, 3, 3, 3, 4, 5, 5, 6, 7, 8, 9, 10, 11, 11, 11, 12, 12, 13, 14, 15}
+var multiKinds = []int{0, 0, 0, 1, 1, 1, 2, 2, 2, 3, 3, 3, 4, 5, 5, 6, 7, 8, 10, 11, 11, 11, 12, 12, 13, 14, 15}
+var multiKindsGC = append([]int{9, 9, 9}, multiKinds...)
 
 var specMulti = pbt.Register(&pbt.Spec[HistCase]{
 	Property: "C12", Name: "C12.multi",
 	Rule: "rapid: a history of helper calls over TWO OR THREE live slices of one element type (any of the 18 types of C12.types; 1 case in 8 has a single slice) that are " +
 		"used alternately (each step names its slice): Insert, InsertSlice (fresh values with 0..2 spare slots of their own), Remove, RemoveSlice, Reverse, s = Grow(s, n), " +
 		"s = Clone(s) and s = Concat(s, values) (the old backing array is then overwritten by the harness: the result must not change), Fill; plus: " +
-		"runtime.GC() in the middle of the history; kept = Repeat(v, n), kept = Clone(s), kept = Concat(s, t) of two live slices or Concat(s, s) - every kept result is " +
+		"runtime.GC() in the middle of the history (in one history in a hundred, at most three times); kept = Repeat(v, n), kept = Clone(s), kept = Concat(s, t) of two live slices or Concat(s, s) - every kept result is " +
 		"overwritten by the caller with fresh distinct values (so shared memory shows in whatever shares it) and ALL live slices and the last six kept results are " +
 		"verified again after EVERY later call; InsertSlice(&s, i, s[lo:hi]) with a part of the slice itself as the values (view capacity to the end of the array / " +
 		"exactly its length / halfway; the one shape where the unchanged library does not follow the snapshot model - values starting after the index, inserted in place - " +
 		"is remapped, see C12.alias); InsertSlice(&s, i, t[lo:hi:hi]) with a part of ANOTHER live slice as the values; calls with an invalid index on a scratch slice " +
-		"(they panic in the unchanged library; the panic is recovered, nothing is asserted about them) followed by ordinary calls. Initial len 0..8, spare 0..4 (1 in 8: " +
+		"(they panic in the unchanged library; the panic is recovered, nothing is asserted about them) followed by ordinary calls. Initial len 0..8, spare 0..4 (1 in 12: " +
 		"len up to 1200 next to powers of two, batches up to 300); 0/3/8/20 .. 46 steps; the spare capacity of the target is re-poisoned before every call; after every " +
 		"call the target equals the splice model. non-trivial = at least two live slices were operated on, with at least one switch between them, and at least one splice " +
 		"strictly inside a slice with spare capacity or one self-aliased InsertSlice",
 	Gen: func(t *rapid.T) HistCase {
 		c := HistCase{Type: rapid.SampledFrom(typeNames).Draw(t, "type")}
 		ns := rapid.SampledFrom([]int{2, 2, 2, 3, 3, 3, 3, 1}).Draw(t, "slots")
-		big := rapid.IntRange(0, 7).Draw(t, "big") == 0
+		big := rapid.IntRange(0, 11).Draw(t, "big") == 0
 		bigMaxLen, bigBatch := 1200, 300
 		if c.Type == "struct(520B)" {
 			bigMaxLen, bigBatch = 300, 100
@@ -87,8 +88,12 @@ var specMulti = pbt.Register(&pbt.Spec[HistCase]{
 		if big {
 			maxA = 3000
 		}
+		kinds := multiKinds
+		if g := rapid.IntRange(0, 99).Draw(t, "with_gc"); g == 57 || g == 23 || g == 81 || g == 40 { // (rapid favours 0 and the bounds)
+			kinds = multiKindsGC // a full collection costs ~10 ms of CPU on 16 processors: only one history in a hundred has them (at most three)
+		}
 		c.Ops = pbt.OpsOf(t, rapid.Custom(func(t *rapid.T) HOp {
-			op := drawHOp(t, multiKinds, ns, maxA, maxB)
+			op := drawHOp(t, kinds, ns, maxA, maxB)
 			if big && rapid.IntRange(0, 3).Draw(t, "big_batch") == 0 {
 				op.B = drawSize(t, bigBatch, "big_b")
 				op.C = drawSize(t, bigBatch, "big_c")
@@ -97,7 +102,7 @@ var specMulti = pbt.Register(&pbt.Spec[HistCase]{
 		}), []int{0, 3, 8, 20}, "ops")
 		return c
 	},
-	Run: RunMulti, Quick: 25000, Thorough: 80000,
+	Run: RunMulti, Quick: 15000, Thorough: 80000,
 	Replicas: 4, ReplicaEvery: 8,
 })
 
@@ -124,25 +129,20 @@ var roomyTypes = []struct {
 func roomyOps(n int) [][]HOp {
 	var l [][]HOp
 	one := func(op HOp) { l = append(l, []HOp{op}) }
-	for _, idx := range uniq([]int{0, n / 2, n - 1}, max(n-1, 0)) {
-		one(HOp{K: 2, A: idx})
-	}
-	for _, idx := range uniq([]int{0, 1, n / 2, n}, n) {
-		for _, length := range uniq([]int{0, 1, 2, 3, (n - idx) / 2, n - idx - 1, n - idx}, n-idx) {
+	one(HOp{K: 2, A: 0})
+	one(HOp{K: 2, A: n / 2})
+	for _, idx := range uniq([]int{0, n / 2}, n) {
+		for _, length := range uniq([]int{0, 1, 2, 3, (n - idx) / 2, n - idx}, n-idx) {
 			one(HOp{K: 3, A: idx, B: length})
 		}
 	}
 	for _, idx := range uniq([]int{0, n / 2, n}, n) {
 		one(HOp{K: 0, A: idx})
-		for _, k := range []int{1, 2, 5} {
-			one(HOp{K: 1, A: idx, B: k, C: k})
-		}
+		one(HOp{K: 1, A: idx, B: 2 + idx%4, C: idx})
 		// a part of the slice itself as the values
-		one(HOp{K: 11, A: idx, B: 0, C: n, D: idx})
-		one(HOp{K: 11, A: idx, B: idx / 2, C: 2, D: idx + 1})
+		one(HOp{K: 11, A: idx, B: idx / 2, C: n, D: idx})
 	}
 	one(HOp{K: 4})
-	one(HOp{K: 5, B: 1})
 	one(HOp{K: 5, B: 3})
 	one(HOp{K: 6})
 	one(HOp{K: 7, B: 2})
@@ -176,15 +176,19 @@ func enumerateRoomy(shard, shards int, tier string, yield0 func(HistCase) bool) 
 		}
 	}
 	type cb struct{ bytes, delta int }
-	caps := []cb{{128 << 10, 0}, {512 << 10, 1}, {1 << 20, 0}, {1 << 20, 64}, {2 << 20, 0}, {4 << 20, 1}, {16 << 20, 0}}
+	// every type at the first four; the larger ones on int and on one more type in turn (thorough: every type at all)
+	caps := []cb{{128 << 10, 0}, {1 << 20, 0}, {1 << 20, 64}, {2 << 20, 0}, {512 << 10, 1}, {4 << 20, 1}, {16 << 20, 0}}
 	if tier == "thorough" {
 		caps = append(caps, cb{1 << 20, 1}, cb{1 << 20, 41}, cb{8 << 20, 0}, cb{64 << 20, 0}, cb{256 << 20, 1})
 	}
 	k := 0
-	for _, ty := range roomyTypes {
-		for _, cp := range caps {
+	for ti, ty := range roomyTypes {
+		for ci, cp := range caps {
+			if tier != "thorough" && ci >= 4 && ti != 0 && ti != 1+(ci-4) {
+				continue
+			}
 			capElems := cp.bytes/ty.size + cp.delta
-			for _, n := range []int{2, 10, 40, 1000} {
+			for _, n := range []int{3, 40, 1000} {
 				for _, ops := range roomyOps(n) {
 					k++
 					yield(HistCase{Type: ty.name, Slots: []Slot{{Len: n, Spare: capElems - n, Once: k%3 == 0}}, Ops: ops})
@@ -194,18 +198,16 @@ func enumerateRoomy(shard, shards int, tier string, yield0 func(HistCase) bool) 
 				}
 			}
 			// removals that cross the quarter-full / half-full marks of the backing array
-			if capElems <= 1<<19 {
+			if capElems <= 1<<18+1 {
 				for _, frac := range []int{4, 2} {
-					for _, idx := range []int{0, 7} {
-						for length := 0; length <= 3; length++ {
-							k++
-							yield(HistCase{Type: ty.name, Slots: []Slot{{Len: capElems/frac + 1, Spare: capElems - capElems/frac - 1, Once: k%2 == 0}},
-								Ops: []HOp{{K: 3, A: idx, B: length}, {K: 2, A: idx}, {K: 3, A: 3, B: 2}}})
-						}
+					for length := 0; length <= 3; length++ {
+						k++
+						yield(HistCase{Type: ty.name, Slots: []Slot{{Len: capElems/frac + 1, Spare: capElems - capElems/frac - 1, Once: k%2 == 0}},
+							Ops: []HOp{{K: 3, A: 7 * (length % 2), B: length}, {K: 2, A: 5}, {K: 3, A: 3, B: 2}}})
 					}
 				}
 				// a slice that was full, cut down to a few elements by the library itself, then used
-				for _, n := range []int{0, 1, 40} {
+				for _, n := range []int{0, 40} {
 					yield(HistCase{Type: ty.name, Slots: []Slot{{Len: capElems, Spare: 0}},
 						Ops: []HOp{{K: 3, A: n, B: capElems - n}, {K: 3, A: n / 4, B: 3}, {K: 0, A: 1}, {K: 3, A: 0, B: 2}, {K: 1, A: 1, B: 3}, {K: 2, A: 0}}})
 				}
@@ -226,16 +228,16 @@ func enumerateRoomy(shard, shards int, tier string, yield0 func(HistCase) bool) 
 var specRoomy = pbt.Register(&pbt.Spec[HistCase]{
 	Property: "C12", Name: "C12.roomy",
 	Rule: "enumerated: slices whose backing array is LARGE AND MOSTLY UNUSED (\"whatever spare capacity the slice had\"): element types int (8 bytes), uint8, string (16), " +
-		"[16]uint64 (128) and a 520-byte struct; capacity = B bytes worth of elements for B in {128 KiB, 512 KiB (+1 element), 1 MiB, 1 MiB + 64 elements, 2 MiB, 4 MiB (+1), 16 MiB} " +
-		"(thorough also 1 MiB + 1, 1 MiB + 41 elements, 8 MiB, 64 MiB, 256 MiB), so the unused part lies below, next to and far above 1 MiB; live length in {2, 10, 40, 1000}; " +
-		"one case in three builds the slice as one that ONCE WAS FULL (made with len = cap and cut down by the library's own RemoveSlice, which is checked). On each: " +
-		"Remove at {0, len/2, len-1}; RemoveSlice at index {0, 1, len/2, len} x length {0, 1, 2, 3, rest/2, rest-1, rest}; Insert, InsertSlice of 1/2/5 values and of a part of " +
-		"the slice itself at {0, len/2, len}; Reverse, Grow 1 and 3, Clone, Concat, Fill, kept Clone, Concat(s, s); and pairs/triples of calls where the second sees what the " +
-		"first left behind (RemoveSlice twice, RemoveSlice then InsertSlice, Remove-Insert-RemoveSlice, emptying then inserting, Clone then RemoveSlice, garbage collections " +
-		"between removals). Additionally for capacities up to 2^19 elements: slices filled to cap/4+1 and cap/2+1 with removals of 0..3 elements crossing the quarter-full / " +
-		"half-full marks, and slices that are completely full and are cut down to {0, 1, 40} elements by RemoveSlice and then spliced; two roomy slices used alternately. " +
-		"Only the first 64 and the last 8 slots of a huge spare capacity are poisoned before each call. Oracle: the splice model after every call (engine of C12.multi). " +
-		"non-trivial = at least one call on a slice with more than 64 KiB of unused capacity",
+		"[16]uint64 (128) and a 520-byte struct; capacity = B bytes worth of elements: every type at B in {128 KiB, 1 MiB, 1 MiB + 64 elements, 2 MiB}, and B in {512 KiB + 1 element, " +
+		"4 MiB + 1 element, 16 MiB} on int and on one further type each (thorough: every type at every B, also 1 MiB + 1, 1 MiB + 41 elements, 8 MiB, 64 MiB, 256 MiB), so the unused " +
+		"part lies below, next to and far above 1 MiB; live length in {3, 40, 1000}; one case in three builds the slice as one that ONCE WAS FULL (made with len = cap and cut " +
+		"down by the library's own RemoveSlice, which is checked). On each: Remove at {0, len/2}; RemoveSlice at index {0, len/2} x length {0, 1, 2, 3, rest/2, rest}; Insert, " +
+		"InsertSlice of 2..5 values and of a part of the slice itself at {0, len/2, len}; Reverse, Grow 3, Clone, Concat, Fill, kept Clone, Concat(s, s); and pairs/triples of " +
+		"calls where the second sees what the first left behind (RemoveSlice twice, RemoveSlice then InsertSlice, Remove-Insert-RemoveSlice, emptying then inserting, Clone then " +
+		"RemoveSlice, garbage collections between removals). Additionally for capacities up to 2^18+1 elements: slices filled to cap/4+1 and cap/2+1 with removals of 0..3 " +
+		"elements crossing the quarter-full / half-full marks, and slices that are completely full and are cut down to {0, 40} elements by RemoveSlice and then spliced; two " +
+		"roomy slices used alternately. Only the first 64 and the last 8 slots of a huge spare capacity are poisoned before each call. Oracle: the splice model after every " +
+		"call, every other live slice and kept result re-verified (engine of C12.multi). non-trivial = at least one call on a slice with more than 64 KiB of unused capacity",
 	Enum: enumerateRoomy,
 	Run:  RunRoomy, Exhaustive: true,
 	Replicas: 2, ReplicaEvery: 16,
@@ -286,9 +288,9 @@ func manyLists() [][]HOp {
 
 func enumerateMany(shard, shards int, tier string, yield func(HistCase) bool) {
 	k := 0
-	types := []string{"int", "string", "any"}
+	types := []string{"int", "string"}
 	if tier == "thorough" {
-		types = append(types, "struct(520B)", "uint8", "[]int", "struct{}")
+		types = append(types, "any", "struct(520B)", "uint8", "[]int", "struct{}")
 	}
 	for _, tn := range types {
 		for _, ops := range manyLists() {
@@ -309,7 +311,7 @@ var specMany = pbt.Register(&pbt.Spec[HistCase]{
 		"(len 4 cap 7 and len 3 cap 3), every call checked against the splice model and every other live slice / kept result re-verified after every call (engine of C12.multi), " +
 		"so that any per-call or per-package counter of up to 16 bits wraps at least once: Insert+Remove; InsertSlice+RemoveSlice; two slices alternately; InsertSlice with " +
 		"reallocation + RemoveSlice + Clone; Fill; Reverse; Grow+RemoveSlice; Clone; Concat+Remove; kept Repeat; kept Clone + kept Concat; self-aliased InsertSlice + RemoveSlice; " +
-		"aborted (panicking, recovered) calls between Insert and Remove; empty removals and insertions; element types int, string, any (thorough also the 520-byte struct, uint8, " +
+		"aborted (panicking, recovered) calls between Insert and Remove; empty removals and insertions; element types int and string (thorough also any, the 520-byte struct, uint8, " +
 		"[]int, struct{}). non-trivial = at least 2^16 checked calls in the case",
 	Enum: enumerateMany,
 	Run:  RunMany, Exhaustive: true,
